@@ -232,3 +232,15 @@ def fuzz_target(sut, src, shims):
           '-o', tmp, path] + objs + ['-lm', '-lltdl', '-ldl'])
     os.replace(tmp, exe)
     return exe
+
+
+def preload_shim():
+    """LD_PRELOAD shim for the real-process checks (C13, C14): sut/xshim.c -> build/xshim-<hash>.so"""
+    src = os.path.join(V, 'sut', 'xshim.c')
+    so = os.path.join(BUILD, 'xshim-%s.so' % _sha([src]))
+    os.makedirs(BUILD, exist_ok=True)
+    if not os.path.exists(so):
+        tmp = so + '.tmp%d' % os.getpid()
+        _run(['gcc', '-shared', '-fPIC', '-O1', '-o', tmp, src, '-ldl'])
+        os.replace(tmp, so)
+    return so
